@@ -21,7 +21,10 @@ LocalHosts == {"lhName", "lhUpper", "lo4", "lo4b", "lo6", "unspec4", "unspec6", 
                \* ideographic full stops
                "lhWide", "lo4Ideo",
                \* no host at all (http://:80/): the dialler takes an empty host for the local system
-               "lhEmpty"}
+               "lhEmpty",
+               \* names the hosts file maps to loopback addresses, wherever they fall in the alphabet: before "localhost"
+               \* (a Debian-style "127.0.1.1 buildhost buildhost.example.net"), and mapped to ::1
+               "lhAliasEarly", "lhAliasFqdn", "lhAlias6"}
 HostClasses == {"origin",      \* ordinary name, matches nothing
                 "denied",      \* matches a deny-domains include rule
                 "deniedUpper", \* the same domain spelt in upper case by the client: the same domain, denied as well
@@ -31,10 +34,14 @@ HostClasses == {"origin",      \* ordinary name, matches nothing
                 "denyExcl",    \* matches an include rule and a '-' exclude rule
                 "direct",      \* matches direct-domains
                 "directUpper", \* the same domain spelt in upper case by the client
-                "directExcl"}  \* matches direct-domains include and exclude
+                "directExcl",  \* matches direct-domains include and exclude
+                \* lists with a case-insensitive include rule and an exclude rule written in lower case: the excluded host spelt
+                \* with capitals is the same host - excluded ("includes minus excludes" is about hosts, not spellings) - and
+                \* another host of the included domain is included however it is spelt
+                "denyExclCaps", "deniedCaps", "directExclCaps", "directCaps"}
                \cup LocalHosts
 IsLocal(h) == h \in LocalHosts
-IsDenied(h) == h \in {"denied", "deniedUpper", "deniedWide", "deniedDot", "deniedUpperRule"}
+IsDenied(h) == h \in {"denied", "deniedUpper", "deniedWide", "deniedDot", "deniedUpperRule", "deniedCaps"}
 
 (* ---------- credentials presented to this proxy ---------- *)
 CredClasses == {"none", "exact", "wrongPass", "userPrefix", "passSuffix", "passPrefix", "caseVar", "emptyPass",
@@ -92,7 +99,7 @@ BaseHop(up) ==
 NextHop(cfg, h) ==
   IF cfg.up.t = "none" THEN Direct
   ELSE IF cfg.lh = "direct" /\ IsLocal(h) THEN Direct
-  ELSE IF cfg.dd /\ h \in {"direct", "directUpper"} THEN Direct
+  ELSE IF cfg.dd /\ h \in {"direct", "directUpper", "directCaps"} THEN Direct
   ELSE BaseHop(cfg.up)
 
 \* net.go DialRedirectFromHostPortPairs: first matching rule; empty = any / unchanged.
@@ -140,22 +147,22 @@ NoUp == [t |-> "none", v |-> "-"]
 AccessKinds == {"GET", "GET10", "POST", "CONNECT", "MITMGET", "GETorigin", "MITMGEThost"}
 AccessCfgs == [tf : {"off", "in", "out"}, auth : BOOLEAN, lh : {"deny", "allow"}, deny : BOOLEAN, dd : {FALSE},
                up : {NoUp, [t |-> "static", v |-> "HTTP_A"]}, ct : {"none"}]
-AccessReqs == [kind : AccessKinds, host : HostClasses \ {"direct", "directUpper", "directExcl"}, cred : CredClasses,
+AccessReqs == [kind : AccessKinds, host : HostClasses \ {"direct", "directUpper", "directExcl", "directExclCaps", "directCaps"}, cred : CredClasses,
                via : {"none", "ownOnly"}, pos : Positions]
 AccessOK(c, r) ==
   /\ (r.host = "lhEmpty" => c.lh = "deny")       \* (with localhost allowed the outcome depends on what listens on the proxy's own port 80)
   /\ (r.host \in {"lo6zone", "lhDot", "lhWide", "lo4Ideo", "deniedWide", "lhEmpty"} => r.kind \in {"GET", "GET10", "POST"})   \* written in a URL
   /\ (r.cred # "none" => c.auth)                 \* credentials only matter with auth on
-  /\ (r.host \in {"denied", "deniedUpper", "deniedWide", "deniedDot", "deniedUpperRule", "denyExcl"} => c.deny)
+  /\ (r.host \in {"denied", "deniedUpper", "deniedWide", "deniedDot", "deniedUpperRule", "denyExcl", "denyExclCaps", "deniedCaps"} => c.deny)
   /\ (r.pos \in AfterRefused => (c.auth \/ c.deny \/ c.lh = "deny" \/ c.tf = "out"))
   /\ (r.pos = "afterOK" => c.tf # "out")
 AccessAll == {x \in AccessCfgs \X AccessReqs : AccessOK(x[1], x[2])}
 
 RouteKinds == {"GET", "CONNECT", "MITMGET"}
 RouteCfgs == [tf : {"off"}, auth : {FALSE}, lh : {"allow", "direct"}, deny : {FALSE}, dd : BOOLEAN, up : Upstreams, ct : CtClasses]
-RouteReqs == [kind : RouteKinds, host : {"origin", "direct", "directUpper", "directExcl", "lo4", "lhName", "lo6"}, cred : {"none"},
+RouteReqs == [kind : RouteKinds, host : {"origin", "direct", "directUpper", "directExcl", "directExclCaps", "directCaps", "lo4", "lhName", "lo6"}, cred : {"none"},
               via : {"none"}, pos : {"first"}]
-RouteOK(c, r) == /\ (r.host \in {"direct", "directUpper", "directExcl"} => c.dd)
+RouteOK(c, r) == /\ (r.host \in {"direct", "directUpper", "directExcl", "directExclCaps", "directCaps"} => c.dd)
                  /\ (c.ct # "none" => r.host \in {"origin", "direct", "lo4"} /\ r.kind # "MITMGET"
                                       /\ BaseHop(c.up).k \in {"direct", "http"})
 RouteAll == {x \in RouteCfgs \X RouteReqs : RouteOK(x[1], x[2])}
@@ -206,11 +213,11 @@ Pick(n, S) == IF n = 0 THEN S ELSE RandomSubset(n, S)
 \* every (kind, host) pair is always run alone - first on its connection, credentials absent or right, no other control failing
 AccessBase == {x \in AccessAll : /\ x[2].cred \in {"none", "exact"} /\ x[2].via = "none" /\ x[2].pos = "first"
                                  /\ x[1].tf = "off" /\ x[1].up = NoUp
-                                 /\ x[1].deny = (x[2].host \in {"denied", "deniedUpper", "deniedWide", "deniedDot", "deniedUpperRule", "denyExcl"})}
+                                 /\ x[1].deny = (x[2].host \in {"denied", "deniedUpper", "deniedWide", "deniedDot", "deniedUpperRule", "denyExcl", "denyExclCaps", "deniedCaps"})}
 InitAccess == gen = "access" /\ \E x \in Pick(AccessSample, AccessAll) \cup (IF AccessSample = 0 THEN {} ELSE AccessBase) :
                   cfg = x[1] /\ req = x[2] /\ out = Decide(x[1], x[2])
 \* every (kind, host, upstream) triple is always run without connect-to rules
-RouteBase == {x \in RouteAll : x[1].ct = "none" /\ x[1].lh = "allow" /\ x[1].dd = (x[2].host \in {"direct", "directUpper", "directExcl"})}
+RouteBase == {x \in RouteAll : x[1].ct = "none" /\ x[1].lh = "allow" /\ x[1].dd = (x[2].host \in {"direct", "directUpper", "directExcl", "directExclCaps", "directCaps"})}
 InitRoute  == gen = "route"  /\ \E x \in Pick(RouteSample, RouteAll) \cup (IF RouteSample = 0 THEN {} ELSE RouteBase) \cup KrbAll :
                   cfg = x[1] /\ req = x[2] /\ out = Decide(x[1], x[2])
 InitVia    == gen = "via"    /\ cfg \in ViaCfgs /\ req \in ViaReqs /\ out = Decide(cfg, req)
